@@ -37,7 +37,8 @@ class InjectedFault(Exception):
 def required(tier):
     b = {f'kind:{k}': 3 for k in set(KINDS)}
     b.update({f'flags:{k}': 1 for k in range(16)})
-    b.update({'fault-raised': 30, 'gap>0': 30, 'frames>=3': 30})
+    b.update({'fault-raised': 30, 'gap>0': 30, 'frames>=3': 30, 'standalone:before': 20, 'standalone:after': 20,
+              'order:first-frame-is-latest': 10, 'subset-of-overwritten-cadence': 10})
     return {'buckets': b, 'counters': {'frames_compared': 300, 'ts_restore_checks': 500, 'faults_injected': 100,
                                        'line_failpoints_fired': 20}, 'checks': 2000, 'nontrivial': 100}
 
@@ -79,6 +80,11 @@ def gen_cases(seed, tier):
                  repeats=int(rng.integers(1, 3)), t_overwrite=bool(rng.integers(2)) if kind == 'times' else False,
                  t_slew=float(common.pick(rng, [0.0, 1.0, 123.456, 1e3])), ordered=bool(rng.integers(2)),
                  sub=int(rng.integers(2 ** 31)))
+        if kind in ('normal', 'normal_subset'):
+            c['standalone'] = ['none', 'pre', 'post', 'both'][(i // len(KINDS)) % 4]
+            if kind == 'normal_subset':
+                c['t_overwrite'] = bool(rng.integers(2))
+            c['reverse'] = bool((i // len(KINDS)) % 5 == 2) and not c['t_overwrite']
         if kind == 'line':
             c['line_points'] = [int(x) for x in rng.integers(0, 70, size=3 if tier == 'quick' else 12)]
             if tier == 'thorough' and (i // len(KINDS)) % 4 == 0:
@@ -101,6 +107,8 @@ def build_cadence(stg, c):
                        seed=c['sub'] + k, t_start=t)
         frames.append(fr)
         t = fr.t_stop
+    if c.get('reverse'):
+        frames = frames[::-1]          # the cadence's first frame is the LATEST observation: offsets are negative
     if c['ordered']:
         order = 'ABACADAEAF'[:max(len(frames), 1)]
         cad = stg.OrderedCadence(frames, order=order, t_slew=c['t_slew'], t_overwrite=c['t_overwrite'])
@@ -323,14 +331,41 @@ def _run(stg, c, R, mon):
             R.check(abs(frames[k].t_start - want) <= 2 * np.spacing(abs(want)), 'overwrite_times-spacing', frame=k,
                     got=frames[k].t_start, want=want)
     mon.install()
+    t_before_sel = [f.t_start for f in frames]
     sub = _subset(stg, c, cad)
     if len(sub) == 0:
         sub = cad
+    R.check([f.t_start for f in frames] == t_before_sel, 'selection-moved-frames-in-time' + (':t_overwrite' if c['t_overwrite'] else ''),
+            before=t_before_sel, after=[f.t_start for f in frames])
+    if c.get('reverse'):
+        R.bucket('order:first-frame-is-latest')
+    if c['kind'] == 'normal_subset' and c['t_overwrite']:
+        R.bucket('subset-of-overwritten-cadence')
+
+    def standalone(tag):
+        # the same signal injected directly into one member frame (own, unshifted time axis), before / after cadence injections
+        fr_ = sub.frames[-1]
+        ts_ = np.array(fr_.ts, dtype=float)
+        fs_ = np.array(fr_.fs, dtype=float)
+        lo_, hi_ = rsig.bounding_columns(fs_, fr_.df, fr_.fchans, c['brange'])
+        ref_ = rsig.SignalRef(stg, c['spec'], (fs_[0] + fs_[-1]) / 2, max(fr_.df * fr_.fchans, fr_.df))
+        if c['spec']['path']['form'] in ('array', 'list') or c['spec']['tprof']['form'] in ('array', 'list'):
+            if fr_.tchans != sub.frames[0].tchans:
+                return
+        before_ = fr_.data.copy()
+        c01.call_add_signal(fr_, stg, c['spec'], c['opts'], c['brange'], ref_, lo_, hi_)
+        value_, bound_, _ = rsig.evaluate(ref_, ts_, fs_, fr_.df, fr_.dt, lo_, hi_, c['opts'])
+        absorb_ = np.spacing(np.maximum(np.abs(fr_.data), np.abs(before_)))
+        R.bucket('standalone:' + tag)
+        rsig.compare(fr_.data - before_, value_, bound_, R, 'standalone-injection-' + tag + '-cadence-injection-differs', extra=absorb_)
+        R.check(np.array_equal(np.asarray(fr_.ts), ts_), 'ts-changed-by-standalone-injection')
     fr0 = sub.frames[0]
     fs0 = np.array(fr0.fs, dtype=float)
     span = max(fr0.df * fr0.fchans, fr0.df)
     nontriv = False
     if c['kind'] in ('normal', 'normal_subset', 'times'):
+        if c.get('standalone') in ('pre', 'both'):
+            standalone('before')
         for rep in range(c['repeats']):
             spec = c['spec'] if rep == 0 else dict(c['spec'], path=dict(c['spec']['path'], seed=c['spec']['path'].get('seed', 0) + 1))
             cc = dict(c, spec=spec)
@@ -342,6 +377,8 @@ def _run(stg, c, R, mon):
             sub.add_signal(*args, **kw)
             _check_after(dict(c, repeats=1), R, mon, expected, tag=f'rep{rep}')
             nontriv = nontriv or (len(sub) >= 2 and any(e[2] != 0 and np.any(e[0] != 0) for e in expected))
+        if c.get('standalone') in ('post', 'both'):
+            standalone('after')
         # consolidate
         cons = sub.consolidate()
         want = np.concatenate([f.data for f in sub.frames], axis=0)
